@@ -14,7 +14,9 @@
      common/type.go          ExtractTable;  common/limit.go CheckKey
      node/scan.go            parseScanArgs (the clamping of COUNT, after Atoi), scanCommand, advanceScanCommand,
                              hscanCommand, sscanCommand, zscanCommand
-     server/scan_merge.go    decodeScanCursor (the re-wrapping "table:cursor" of one partition's cursor)
+     server/scan_merge.go    decodeScanCursor (the re-wrapping "table:cursor" of one partition's cursor),
+                             doScanCommon / doMergeScan / doScanNodesFilter (COUNT split, merged cursor, merged page;
+                             not: base64 text of the cursor, Go map order of the partitions)
    and of the client loop "feed the returned cursor back until it is empty" (with fuel).
    An operation returns [Err] where Go returns a non-nil error and [Panic] where Go faults.
    No proofs in this file. *)
@@ -87,11 +89,14 @@ Definition fwd_open_start (min : bytes) (db : list bytes) : list bytes :=
   | k :: r => if bytes_leb k min then r else k :: r
   | [] => []
   end.
-(* rangeLimitIterator, reverse, Max != nil, RangeROpen: SeekForPrev(Max); if !Valid then SeekToFirst;
-   if Valid && key >= Max then Prev *)
+(* rangeLimitIterator, reverse, Max != nil, RangeROpen: SeekForPrev(Max); if !Valid then { SeekToFirst;
+   if Valid && key > Max then Prev }; if Valid && key >= Max then Prev *)
 Definition rev_open_start (max : bytes) (db : list bytes) : list bytes :=
   let c := match seek_le max (rev db) with
-           | [] => match db with [] => [] | k0 :: _ => [k0] end     (* SeekToFirst: nothing before it *)
+           | [] => match db with
+                   | [] => []
+                   | k0 :: _ => if bytes_ltb max k0 then [] (* Prev before the first key *) else [k0]
+                   end
            | c => c
            end in
   match c with
@@ -451,6 +456,71 @@ Section WithMatch.
              (reverse : bool) (start pat : bytes) (count : Z) : list page * status :=
     iterate fuel (fun c => coll_scan_command db dt table verkey exists_ reverse c pat count) start.
 End WithMatch.
+
+(* ---------- server/scan_merge.go: the scan over all partitions ---------- *)
+(* The cursor a client holds lists, for every partition that still has elements, that partition's cursor
+   (base64 text in the code; the encoding is not modelled); the empty list is the empty cursor.
+   The partitions are visited in list order here; the code visits them in Go map order and concatenates
+   the pages in that order, so only the order within a partition is meaningful. *)
+Definition mcursor : Type := list (nat * bytes).
+
+(* doScanCommon: a COUNT argument is divided by the number of partitions this request goes to
+   (Go integer division); without COUNT the partitions see no COUNT either (count 0) *)
+Definition every_count (has_count : bool) (count : Z) (np : nat) : Z :=
+  if has_count then Z.quot count (Z.of_nat np) else 0%Z.
+
+Section Merge.
+  (* partition p's scan handler with the COUNT it is given, on cursor c *)
+  Variable call : Z -> nat -> bytes -> outcome page.
+
+  (* doMergeScan: the pages of the requested partitions, concatenated; the next cursor keeps the
+     partitions whose own next cursor is not empty *)
+  Fixpoint merged_pages (cnt : Z) (ts : mcursor) : outcome (list bytes * mcursor) :=
+    match ts with
+    | [] => Ok ([], [])
+    | (p, c) :: r =>
+        match call cnt p c with
+        | Err => Err
+        | Panic => Panic
+        | Ok (items, nx) =>
+            match merged_pages cnt r with
+            | Ok (its, mc) => Ok (items ++ its, match nx with [] => mc | _ => (p, nx) :: mc end)
+            | e => e
+            end
+        end
+    end.
+
+  (* one request: doScanNodesFilter keeps the partitions named in the cursor, doScanCommon splits COUNT
+     among them *)
+  Definition merged_call (has_count : bool) (count : Z) (ts : mcursor) : outcome (list bytes * mcursor) :=
+    merged_pages (every_count has_count count (length ts)) ts.
+
+  (* the client: repeat until the merged cursor is empty *)
+  Fixpoint miterate (has_count : bool) (count : Z) (fuel : nat) (ts : mcursor) : list (list bytes) * status :=
+    match fuel with
+    | O => ([], OutOfFuel)
+    | S f =>
+        match merged_call has_count count ts with
+        | Err => ([], Failed)
+        | Panic => ([], Faulted)
+        | Ok (items, mc) =>
+            match mc with
+            | [] => ([items], Done)
+            | _ => let '(ps, st) := miterate has_count count f mc in (items :: ps, st)
+            end
+        end
+    end.
+End Merge.
+
+(* doScanNodesFilter with the empty cursor: every partition starts from the given cursor *)
+Definition all_partitions (np : nat) (start : bytes) : mcursor := map (fun p => (p, start)) (seq 0 np).
+
+(* SCAN/ADVSCAN (+REV) over a namespace of partitions with the stores dbs *)
+Definition merged_keys (compile : bytes -> option (bytes -> bool)) (fuel : nat) (dbs : list (list bytes))
+           (d : dtype) (reverse : bool) (table start pat : bytes) (has_count : bool) (count : Z)
+  : list (list bytes) * status :=
+  miterate (fun cnt p c => key_scan_command compile (nth p dbs []) d reverse (wrap_cursor table c) pat cnt)
+           has_count count fuel (all_partitions (length dbs) start).
 
 (* ---------- the pattern class the correspondence check generates: literals, '*', '?' ---------- *)
 Definition star : N := 42.
